@@ -199,10 +199,10 @@ def _xmlattr_check(items, autospace):
 
 def xmlattr_key_ok(codes: List[int], vsel: int, autospace: bool, second: bool) -> bool:
     """
-    pre: 1 <= len(codes) <= MAXLEN() and all(0 <= c < len(KEYA) for c in codes) and 0 <= vsel < len(KVALS) and second == P.get("second", second) and vsel == P.get("vsel", vsel) and autospace == P.get("autospace", autospace)
+    pre: 0 <= len(codes) <= MAXLEN() and all(0 <= c < len(KEYA) for c in codes) and 0 <= vsel < len(KVALS) and second == P.get("second", second) and vsel == P.get("vsel", vsel) and autospace == P.get("autospace", autospace)
     post: _
     """
-    # the empty key (len(codes) == 0) is excluded: see SUSPECTED_DEFECTS
+    # the empty key is included again: repaired in /repo (fix: xmlattr rejects an empty attribute name)
     key = decode(codes, KEYA)
     vsel = pick(vsel, len(KVALS))
     autospace = pickb(autospace)
@@ -440,9 +440,7 @@ def margs_ok(codes: List[int], recv: int, f1: bool, f2: bool) -> bool:
     with NoTracing():
         spec = P["spec"]
         asyncm = bool(P.get("asyncm"))
-        if spec == "indent" and recv != 1 and any(c in META for c in a):
-            # SUSPECTED_DEFECTS: do_indent trusts a plain-string width when the receiver is Markup
-            return True
+        # (do_indent's unescaped plain-string width with a Markup receiver was repaired in /repo; no exclusion)
         if recv == 2:
             if not MSPECS[spec][3]:
                 return True
@@ -509,3 +507,12 @@ def conditions(tier, seed):
                             bounds=f"plain-string argument of 1..{L} symbols from {ARGA!r}; receiver: Markup without raw metacharacters / plain str / Markup with "
                                    f"tags (differential); two flags; autoescape on; template: {MSPECS[spec][0]}"))
     return out
+
+
+def known_urlize_trim_ok():
+    """Known-finding witness: urlize trims the already-escaped URL, so trim_url_limit can cut a character reference."""
+    from jinja2.utils import urlize
+    import re as _re
+    out = urlize("http://example.com/?a=1&b=2", 26)
+    text = _re.sub(r"<[^>]*>", "", out)
+    return not _re.search(r"&(?!(?:amp|lt|gt|quot|#39|#34|#x27);)", text)
